@@ -79,6 +79,11 @@ def cases(tier, seed):
     for transport in ("sdo", "pdo"):
         for start in D.STATES:
             out.append({"part": "retry", "transport": transport, "start": start})
+    # timing attributes set by the application: the statusword TPDO has a cycle longer than the default 0.2 s wait and the
+    # application raised TIMEOUT_CHECK_TPDO (on the instance / in a subclass) accordingly
+    for how in ("instance", "subclass"):
+        for start in D.STATES:
+            out.append({"part": "slow-tpdo", "start": start, "how": how, "cycle": 0.3, "check": 1.0})
     for lo in range(0, 65536, 8192):
         out.append({"part": "decoder", "range": [lo, lo + 8192]})
     for name in D.MODE_CODES:
@@ -87,7 +92,7 @@ def cases(tier, seed):
     return out[k:] + out[:k]
 
 
-def make(transport, start, ch, extra, leaves_qs, latency=0.0):
+def make(transport, start, ch, extra, leaves_qs, latency=0.0, tpdo_cycle=None):
     from canopen.profiles.p402 import BaseNode402
     import canopen
     simenv.new_world()
@@ -139,7 +144,15 @@ def make(transport, start, ch, extra, leaves_qs, latency=0.0):
             if latency:
                 simenv.W.now += 0.01              # a TPDO every 10 ms
             bus.inject(0x183, struct.pack("<Hb", drive.sample_statusword(), drive.mode), src_name="drive")
-        simenv.W.idle_hooks.append(idle)
+        if tpdo_cycle:
+            # a drive with a slow TPDO cycle (virtual timer): a frame every tpdo_cycle seconds, not whenever somebody waits
+            def tick():
+                bus.inject(0x183, struct.pack("<Hb", drive.sample_statusword(), drive.mode), src_name="drive")
+                simenv.W.at(tpdo_cycle, tick)
+            tick()
+            simenv.W.at(tpdo_cycle, tick)
+        else:
+            simenv.W.idle_hooks.append(idle)
         node.setup_402_state_machine(read_pdos=False)
         # first TPDO so that the cached statusword is the drive's start state
         node.tpdo_values[0x6041] = D.SW_BITS[start] | drive.extra
@@ -309,7 +322,39 @@ def run_retry(case, st):
         st.outcome("retry reached")
 
 
+def run_slow_tpdo(case, st):
+    from canopen.profiles.p402 import BaseNode402
+    start = case["start"]
+    for target in ([case["target"]] if "target" in case else D.STATES):
+        if target in NONCMD or target == start:
+            continue
+        ch = kernel.Chooser([])
+        node, drive, bus = make("pdo", start, ch, 0, False, tpdo_cycle=case["cycle"])
+        if case["how"] == "instance":
+            node.TIMEOUT_CHECK_TPDO = case["check"]
+        else:
+            node.__class__ = type("TunedNode402", (BaseNode402,), {"TIMEOUT_CHECK_TPDO": case["check"]})
+        # the library only waits for TPDOs once it has seen the map to be periodic: two receptions
+        simenv.VTIME.sleep(2.5 * case["cycle"])
+        st.evaluations += 1
+        st.traces += 1
+        st.nontrivial_n += 1
+        rc = dict(case, target=target)
+        try:
+            node.state = target
+        except Exception as e:  # noqa: BLE001
+            st.violation(f"C19:slow-tpdo:setter-raises:{type(e).__name__}", rc, f"drive reaches {target}",
+                         f"{e!r} trace={drive.trace} cws={[hex(c) for c in drive.cws]}"[:300])
+            continue
+        if drive.state != target:
+            st.violation("C19:slow-tpdo:wrong-final-state", rc, target, drive.state)
+            continue
+        st.outcome("slow tpdo reached")
+
+
 def run_case(case, st):
+    if case["part"] == "slow-tpdo":
+        return run_slow_tpdo(case, st)
     if case["part"] == "retry":
         return run_retry(case, st)
     {"pairs": run_pairs, "decoder": run_decoder, "opmode": run_opmode}[case["part"]](case, st)
